@@ -24,8 +24,9 @@ C21 = {
     "objects:malware-analysis": [{"k": "at_least_one", "of": ["result", "analysis_sco_refs"]}],
     "embedded:ExternalReference": [{"k": "at_least_one", "of": ["description", "url", "external_id"]}],
     "observables:file": [{"k": "at_least_one", "of": ["hashes", "name"]}],
-    "observables:artifact": [{"k": "mutex", "of": ["payload_bin", "url"]}, {"k": "requires", "a": "url", "b": "hashes"}],
+    "observables:artifact": [{"k": "mutex", "of": ["payload_bin", "url"]}, {"k": "at_least_one", "of": ["payload_bin", "url"]}, {"k": "requires", "a": "url", "b": "hashes"}],
     "observables:network-traffic": [{"k": "at_least_one", "of": ["src_ref", "dst_ref"]}, {"k": "le", "a": "start", "b": "end"}],
+    "observables:process": [{"k": "any_property", "except": ["type", "id", "spec_version", "defanged", "extensions"]}],
     "observables:x509-certificate": [{"k": "at_least_one", "of": ["is_self_signed", "hashes", "version", "serial_number", "signature_algorithm", "issuer", "validity_not_before",
                                                                   "validity_not_after", "subject", "subject_public_key_algorithm", "subject_public_key_modulus",
                                                                   "subject_public_key_exponent", "x509_v3_extensions"]}],
@@ -35,8 +36,10 @@ C20 = {
     "objects:observed-data": [{"k": "le", "a": "first_observed", "b": "last_observed"}],
     "objects:sighting": [{"k": "le", "a": "first_seen", "b": "last_seen"}],
     "embedded:ExternalReference": [{"k": "at_least_one", "of": ["description", "url", "external_id"]}],
-    "observables:artifact": [{"k": "mutex", "of": ["payload_bin", "url"]}, {"k": "requires", "a": "url", "b": "hashes"}],
+    "observables:artifact": [{"k": "mutex", "of": ["payload_bin", "url"]}, {"k": "at_least_one", "of": ["payload_bin", "url"]}, {"k": "requires", "a": "url", "b": "hashes"}],
     "observables:network-traffic": [{"k": "at_least_one", "of": ["src_ref", "dst_ref"]}],
+    "observables:file": [{"k": "at_least_one", "of": ["hashes", "name"]}, {"k": "requires", "a": "encryption_algorithm", "b": "is_encrypted"}, {"k": "requires", "a": "decryption_key", "b": "is_encrypted"}],
+    "observables:process": [{"k": "any_property", "except": ["type", "extensions"]}],
 }
 # properties whose value space the audit does not pin down (language tags, MIME types, CPE/SWID, patterns of other languages ...): no obligation
 LENIENT_PROPS = {"lang", "mime_type", "cpe", "swid", "pattern", "pattern_version", "content_type", "languages", "path_enc", "name_enc", "definition", "contents", "schema"}
@@ -55,7 +58,7 @@ def audit(version):
             name = p["name"]
             # A1: what the JSON must contain (the library fills fixed / generated values, so it lists them as not "required")
             p["jsonreq"] = bool(p["required"]) or name == "type" or (name == "id" and cat in ("objects", "observables") and not (version == "2.0" and cat == "observables")) \
-                or (name in ("created", "modified") and p.get("default") == "NOW" and cat == "objects") \
+                or (p.get("default") == "NOW" and cat == "objects") \
                 or (name == "spec_version" and cat == "objects" and version == "2.1" and key != "objects:bundle")
             # A2: STIX 2.1 confidence is an integer 0..100
             if name == "confidence" and p["kind"] == "integer" and "max" not in p:
@@ -68,6 +71,9 @@ def audit(version):
     for key in cons:
         if key not in model["types"]:
             raise SystemExit("constraint for unknown type " + key)
+    for key, t in model["types"].items():       # every extension must carry at least one property
+        if key.startswith("extensions:"):
+            t["constraints"] = t["constraints"] + [{"k": "any_property", "except": ["extension_type"]}]
     return model
 
 
